@@ -60,6 +60,7 @@ pub fn profile_pool() -> Profile {
             ("pm_cfg", 2),
             ("toggle", 3),
             ("pos_misc", 1),
+            ("nanos", 1),
         ]),
         steps: (25, 70),
         fault_pct: 3,
@@ -93,6 +94,7 @@ pub fn profile_farm() -> Profile {
             ("donate", 1),
             ("freeze", 1),
             ("dry_claims", 3),
+            ("nanos", 2),
         ]),
         steps: (40, 110),
         fault_pct: 3,
@@ -135,7 +137,7 @@ pub fn profile_audit() -> Profile {
 pub fn profile_epoch() -> Profile {
     Profile {
         name: "epoch",
-        w: wmap(&[("epoch_new", 3), ("epoch_probe", 10), ("em_cfg", 4)]),
+        w: wmap(&[("epoch_new", 3), ("epoch_probe", 10), ("em_cfg", 4), ("nanos", 3)]),
         steps: (30, 80),
         fault_pct: 0,
         setup_steps: 0,
@@ -1766,6 +1768,7 @@ impl Gen {
             "ownership" => self.gen_ownership(c),
             "em_cfg" => self.gen_em_cfg(c),
             "freeze" => self.gen_freeze(c),
+            "nanos" => Op::Nanos { ns: match self.rng.below(6) { 0 => 0, 1 => 1, 2 => 999_999_999, 3 => 500_000_000, _ => self.rng.below(1_000_000_000) } },
             "audit" => Op::Audit,
             "dry_claims" => Op::DryClaims,
             "epoch_probe" => Op::EpochProbe,
